@@ -29,6 +29,10 @@ type goLean struct {
 	fresh      int
 	curFn      string
 	curResults []string
+	recv       string // receiver name of the method being translated ("" for functions)
+	recvType   string // Lean structure name of the receiver
+	voidMethod bool   // method without results: the translation returns the updated receiver
+	methods    map[string]*ast.FuncDecl
 	sentin     map[string]bool // package-level error variables
 }
 
@@ -152,6 +156,14 @@ func (g *goLean) expr(e ast.Expr) exprRes {
 		}
 		return exprRes{term: lname(x.Name)}
 	case *ast.BinaryExpr:
+		if g.recv != "" && (x.Op == token.EQL || x.Op == token.NEQ) {
+			if id, ok := x.X.(*ast.Ident); ok && id.Name == g.recv && exprString(g.fset, x.Y) == "nil" {
+				if x.Op == token.EQL {
+					return exprRes{term: "false"} // nil receivers are outside the model
+				}
+				return exprRes{term: "true"}
+			}
+		}
 		a, b := g.expr(x.X), g.expr(x.Y)
 		gs, hs := merge(a, b)
 		t := g.info.TypeOf(e)
@@ -182,7 +194,18 @@ func (g *goLean) expr(e ast.Expr) exprRes {
 			r.term = "(!" + r.term + ")"
 			return r
 		}
+		if x.Op == token.SUB {
+			r := g.expr(x.X)
+			r.term = g.wrap(g.info.TypeOf(e), "(0 - "+r.term+")")
+			return r
+		}
 		g.die(e, "unary operator %s", x.Op)
+	case *ast.SelectorExpr:
+		// field of the receiver
+		if id, ok := x.X.(*ast.Ident); ok && g.recv != "" && id.Name == g.recv {
+			return exprRes{term: "(" + lname(g.recv) + "." + x.Sel.Name + ")"}
+		}
+		g.die(e, "selector %s", exprString(g.fset, e))
 	case *ast.IndexExpr:
 		a, i := g.expr(x.X), g.expr(x.Index)
 		gs, hs := merge(a, i)
@@ -257,6 +280,16 @@ func (g *goLean) expr(e ast.Expr) exprRes {
 			}
 			g.die(e, "call to %s", fn.Name)
 		case *ast.SelectorExpr:
+			if exprString(g.fset, x) == "time.Now().Unix()" {
+				return exprRes{term: "now"}
+			}
+			if id, ok := fn.X.(*ast.Ident); ok && g.recv != "" && id.Name == g.recv {
+				if _, ok := g.methods[fn.Sel.Name]; ok && len(x.Args) == 0 {
+					g.fresh++
+					v := fmt.Sprintf("c%d", g.fresh)
+					return exprRes{term: v, hoists: []hoist{{v, g.recvType + "_" + fn.Sel.Name + " " + lname(g.recv) + " now"}}}
+				}
+			}
 			if exprString(g.fset, fn) == "errors.New" {
 				tv := g.info.Types[x.Args[0]]
 				if tv.Value == nil {
@@ -305,14 +338,63 @@ func alwaysReturns(list []ast.Stmt) bool {
 
 func (g *goLean) stmts(list []ast.Stmt, ind string) string {
 	if len(list) == 0 {
+		if g.voidMethod {
+			return ".ok " + lname(g.recv)
+		}
 		die("golean: %s: control reaches the end of a block without return", g.curFn)
 	}
 	s, rest := list[0], list[1:]
 	ni := ind + "  "
+	// receiver field assignments: m.F = e   →   let m := { m with F := e }
+	if as, ok := s.(*ast.AssignStmt); ok && g.recv != "" && len(as.Lhs) == 1 && len(as.Rhs) == 1 {
+		if sel, ok := as.Lhs[0].(*ast.SelectorExpr); ok {
+			if id, ok := sel.X.(*ast.Ident); ok && id.Name == g.recv {
+				if as.Tok != token.ASSIGN {
+					g.die(s, "compound assignment to a field")
+				}
+				r := g.expr(as.Rhs[0])
+				m := lname(g.recv)
+				return wrapStmt([]exprRes{r}, "let "+m+" := { "+m+" with "+sel.Sel.Name+" := "+r.term+" }\n"+ind+g.stmts(rest, ind), ind)
+			}
+		}
+	}
+	// if whose body only updates receiver fields (no return):  let m := if c then {…} else m
+	if is, ok := s.(*ast.IfStmt); ok && g.recv != "" && is.Init == nil && is.Else == nil && !alwaysReturns(is.Body.List) {
+		c := g.expr(is.Cond)
+		if len(c.guards) > 0 || len(c.hoists) > 0 {
+			g.die(s, "guarded condition in a field-update if")
+		}
+		m := lname(g.recv)
+		upd := m
+		for _, bs := range is.Body.List {
+			as, ok := bs.(*ast.AssignStmt)
+			if !ok || len(as.Lhs) != 1 || as.Tok != token.ASSIGN {
+				g.die(bs, "if-body that neither returns nor only assigns receiver fields")
+			}
+			sel, ok := as.Lhs[0].(*ast.SelectorExpr)
+			if !ok || exprString(g.fset, sel.X) != g.recv {
+				g.die(bs, "if-body assigns something other than a receiver field")
+			}
+			r := g.expr(as.Rhs[0])
+			if len(r.guards) > 0 || len(r.hoists) > 0 {
+				g.die(bs, "guarded expression in a field-update if")
+			}
+			// later assignments see earlier ones: substitute the running value for the receiver
+			val := strings.ReplaceAll(r.term, "("+m+".", "(("+upd+").")
+			upd = "{ " + upd + " with " + sel.Sel.Name + " := " + val + " }"
+		}
+		return "let " + m + " := if " + c.term + " then " + upd + " else " + m + "\n" + ind + g.stmts(rest, ind)
+	}
 	switch x := s.(type) {
 	case *ast.BlockStmt:
 		return g.stmts(append(append([]ast.Stmt{}, x.List...), rest...), ind)
 	case *ast.ReturnStmt:
+		if g.voidMethod {
+			if len(x.Results) != 0 {
+				g.die(s, "return with values in a method without results")
+			}
+			return ".ok " + lname(g.recv)
+		}
 		var parts []string
 		var all []exprRes
 		for i, e := range x.Results {
@@ -327,7 +409,7 @@ func (g *goLean) stmts(list []ast.Stmt, ind string) string {
 		}
 		body := ".ok (" + strings.Join(parts, ", ") + ")"
 		if len(parts) == 1 {
-			body = ".ok " + parts[0]
+			body = ".ok (" + parts[0] + ")"
 		}
 		return wrapStmt(all, body, ind)
 	case *ast.IfStmt:
@@ -557,4 +639,107 @@ func leanStrList(ss []string) string {
 		q = append(q, strconv.Quote(s))
 	}
 	return "[" + strings.Join(q, ", ") + "]"
+}
+
+// translateMethods translates methods of one struct type (pointer receiver; the receiver is a value in Lean,
+// nil receivers are outside the model). Methods without results return the updated receiver. Every method
+// takes `now : Int`, the value of `time.Now().Unix()`.
+func translateMethods(dir string, files []string, typeName string, methods []string, ns string, outFile string, header string) {
+	fset := token.NewFileSet()
+	var afs []*ast.File
+	for _, f := range files {
+		_, af := parseFileInto(fset, dir+"/"+f)
+		afs = append(afs, af)
+	}
+	info := &types.Info{Types: map[ast.Expr]types.TypeAndValue{}, Uses: map[*ast.Ident]types.Object{}, Defs: map[*ast.Ident]types.Object{}}
+	conf := types.Config{Importer: importer.ForCompiler(fset, "source", nil)}
+	pkg, err := conf.Check(dir, fset, afs, info)
+	if err != nil {
+		die("golean: type-check %s: %v", dir, err)
+	}
+	g := &goLean{fset: fset, info: info, pkg: pkg, funcs: map[string]*ast.FuncDecl{}, sentin: map[string]bool{}, methods: map[string]*ast.FuncDecl{}, recvType: typeName}
+	var st *ast.StructType
+	for _, af := range afs {
+		for _, d := range af.Decls {
+			switch x := d.(type) {
+			case *ast.GenDecl:
+				for _, sp := range x.Specs {
+					if ts, ok := sp.(*ast.TypeSpec); ok && ts.Name.Name == typeName {
+						st, _ = ts.Type.(*ast.StructType)
+					}
+				}
+			case *ast.FuncDecl:
+				if x.Recv != nil && len(x.Recv.List) == 1 {
+					t := x.Recv.List[0].Type
+					if se, ok := t.(*ast.StarExpr); ok {
+						t = se.X
+					}
+					if id, ok := t.(*ast.Ident); ok && id.Name == typeName {
+						for _, n := range methods {
+							if x.Name.Name == n {
+								g.methods[n] = x
+							}
+						}
+					}
+				}
+			}
+		}
+	}
+	if st == nil {
+		die("golean: struct %s not found", typeName)
+	}
+	var sb strings.Builder
+	sb.WriteString("import PB.GoSem\n")
+	sb.WriteString(header)
+	sb.WriteString("namespace " + ns + "\n\n")
+	fmt.Fprintf(&sb, "/-- fields of Go struct `%s` -/\nstructure %s where\n", typeName, typeName)
+	for _, fld := range st.Fields.List {
+		for _, nm := range fld.Names {
+			fmt.Fprintf(&sb, "  %s : %s\n", nm.Name, g.leanType(info.TypeOf(fld.Type)))
+		}
+	}
+	sb.WriteString("  deriving Repr, DecidableEq\n\n")
+	for _, n := range methods {
+		fd, ok := g.methods[n]
+		if !ok {
+			die("golean: method %s.%s not found", typeName, n)
+		}
+		g.curFn = typeName + "." + n
+		if len(fd.Recv.List[0].Names) != 1 {
+			die("golean: %s: unnamed receiver", g.curFn)
+		}
+		g.recv = fd.Recv.List[0].Names[0].Name
+		params := []string{"(" + lname(g.recv) + " : " + typeName + ")", "(now : Int)"}
+		for _, fld := range fd.Type.Params.List {
+			for _, nm := range fld.Names {
+				params = append(params, "("+lname(nm.Name)+" : "+g.leanType(g.info.TypeOf(fld.Type))+")")
+			}
+		}
+		var rts []string
+		if fd.Type.Results != nil {
+			for _, fld := range fd.Type.Results.List {
+				k := len(fld.Names)
+				if k == 0 {
+					k = 1
+				}
+				for i := 0; i < k; i++ {
+					rts = append(rts, g.leanType(g.info.TypeOf(fld.Type)))
+				}
+			}
+		}
+		g.voidMethod = len(rts) == 0
+		g.curResults = rts
+		rt := strings.Join(rts, " × ")
+		if len(rts) > 1 {
+			rt = "(" + rt + ")"
+		}
+		if g.voidMethod {
+			rt = typeName
+		}
+		pos := fset.Position(fd.Pos())
+		fmt.Fprintf(&sb, "/-- translated from %s:%d -/\n", strings.TrimPrefix(pos.Filename, repo+"/"), pos.Line)
+		fmt.Fprintf(&sb, "def %s_%s %s : PB.Go.Res %s :=\n  %s\n\n", typeName, n, strings.Join(params, " "), rt, g.stmts(fd.Body.List, "  "))
+	}
+	sb.WriteString("end " + ns + "\n")
+	write(outFile, sb.String())
 }
